@@ -7,7 +7,7 @@
    A body the parser cannot read makes the translator fail (reported by the check), it is never skipped."""
 import os, re, sys
 
-TOK = re.compile(r"\s*(?:(//[^\n]*)|([A-Za-z_][A-Za-z0-9_]*)|(::|>=|<=|==|!=|\+=|-=|\*=|/=|[-+*/!<>=(){},;.&]))")
+TOK = re.compile(r"\s*(?:(//[^\n]*)|([A-Za-z_][A-Za-z0-9_]*|\d+)|(::|>=|<=|==|!=|\+=|-=|\*=|/=|[-+*/!<>=(){},;.&:]))")
 
 
 class ParseError(Exception):
@@ -27,6 +27,9 @@ def tokenize(s):
             continue
         out.append(m.group(2) or m.group(3))
     return out
+
+
+HELPERS = {}      # private free functions of src/datum.rs: name -> (parameter names, body expression)
 
 
 class P:
@@ -69,9 +72,24 @@ class P:
             o = self.eat(); return ("un", o, self.unary())
         return self.primary()
     def primary(self):
+        e = self.primary0()
+        while self.peek() == "." and (self.peek(1) or "").isdigit():
+            # tuple field of a newtype (Time(i64)): comparing the inner integers is comparing the Times
+            self.eat("."); self.eat()
+        return e
+    def primary0(self):
         tok = self.eat()
         if tok == "(":
             e = self.expr(); self.eat(")"); return e
+        if tok in HELPERS and self.peek() == "(":
+            self.eat("("); args = []
+            while self.peek() != ")":
+                args.append(self.expr())
+                if self.peek() == ",": self.eat(",")
+            self.eat(")")
+            params, body = HELPERS[tok]
+            if len(params) != len(args): raise ParseError("helper %s called with %d arguments" % (tok, len(args)))
+            return subst(body, dict(zip(params, args)))
         if tok in ("self", "other"):
             if self.peek() == ".":
                 self.eat("."); f = self.eat()
@@ -179,6 +197,20 @@ def impls(src):
 
 def main(repo, outdir):
     src = open(os.path.join(repo, "src/datum.rs")).read()
+    HELPERS.clear()
+    for m in re.finditer(r"^(?:pub(?:\([a-z]+\))?\s+)?(?:const\s+)?fn\s+([a-z_][a-z0-9_]*)\s*\(([^)]*)\)\s*->\s*Time\s*\{", src, re.M):
+        params = [q.split(":")[0].strip() for q in m.group(2).split(",") if q.strip()]
+        if not all(q.split(":")[1].strip() == "Time" for q in m.group(2).split(",") if q.strip()): continue
+        i = m.end(); depth = 1
+        while depth:
+            depth += {"{": 1, "}": -1}.get(src[i], 0); i += 1
+        try:
+            pp = P(tokenize(src[m.end():i - 1]))
+            body = pp.expr()
+            if pp.peek() is not None: continue
+        except ParseError:
+            continue
+        HELPERS[m.group(1)] = (params, body)
     rows = []
     for trait, selfty, rhs, body, line in impls(src):
         try:
